@@ -220,6 +220,46 @@ def _unroll_const_loops(tree: ast.Module) -> None:
                     key = f"__lit{id(lp)}"
                     consts[key] = [e.value for e in it.elts]
                     lp.iter = ast.copy_location(ast.Name(id=key, ctx=ast.Load()), lp.iter)
+    # `for name, value in TABLE.items():` over a function-local dict literal with constant string keys whose body selects an
+    # attribute by `name` (setattr / getattr): read as one copy of the body per entry, preceded by `value = <entry>`
+    for fn in ast.walk(tree):
+        if not isinstance(fn, ast.FunctionDef):
+            continue
+        dicts = {}
+        counts: Dict[str, int] = {}
+        for st in ast.walk(fn):
+            if isinstance(st, ast.Assign) and len(st.targets) == 1 and isinstance(st.targets[0], ast.Name):
+                counts[st.targets[0].id] = counts.get(st.targets[0].id, 0) + 1
+                if isinstance(st.value, ast.Dict) and st.value.keys and all(isinstance(k, ast.Constant) and isinstance(k.value, str) for k in st.value.keys):
+                    dicts[st.targets[0].id] = st.value
+        dicts = {k: v for k, v in dicts.items() if counts.get(k) == 1}
+        if not dicts:
+            continue
+
+        def unroll_items(stmts):
+            out = []
+            for st in stmts:
+                for fld in ("body", "orelse", "finalbody"):
+                    v = getattr(st, fld, None)
+                    if isinstance(v, list) and v and isinstance(v[0], ast.stmt) and not isinstance(st, (ast.FunctionDef, ast.ClassDef)):
+                        setattr(st, fld, unroll_items(v))
+                if isinstance(st, ast.For) and not st.orelse and isinstance(st.iter, ast.Call) and isinstance(st.iter.func, ast.Attribute) \
+                        and st.iter.func.attr == "items" and not st.iter.args and isinstance(st.iter.func.value, ast.Name) \
+                        and st.iter.func.value.id in dicts and isinstance(st.target, ast.Tuple) and len(st.target.elts) == 2 \
+                        and all(isinstance(x, ast.Name) for x in st.target.elts) and selects(st.body, st.target.elts[0].id) \
+                        and not any(isinstance(x, (ast.Break, ast.Continue)) for x in ast.walk(st)):
+                    kv, vv = st.target.elts[0].id, st.target.elts[1].id
+                    d = dicts[st.iter.func.value.id]
+                    for k, val in zip(d.keys, d.values):
+                        first = ast.Assign(targets=[ast.Name(id=vv, ctx=ast.Store())], value=copy.deepcopy(val))
+                        out.append(ast.fix_missing_locations(ast.copy_location(first, st)))
+                        for b in st.body:
+                            nb = _SubstNames({kv: ast.Constant(value=k.value)}).visit(copy.deepcopy(b))
+                            out.append(_FoldAttrCalls().visit(nb))
+                else:
+                    out.append(st)
+            return out
+        fn.body = unroll_items(fn.body)
     if not consts:
         return
 
